@@ -1,0 +1,11 @@
+//go:build verif
+// +build verif
+
+package chain
+
+import "github.com/LemoFoundationLtd/lemochain-core/chain/consensus"
+
+// VerifEngine exposes the consensus engine of an authentically wired BlockChain to the verification harness.
+func (bc *BlockChain) VerifEngine() *consensus.DPoVP {
+	return bc.engine
+}
